@@ -1,1 +1,449 @@
-//! C11 harnesses (not written yet).
+//! C11 — conversions to and from native integers preserve the value and report overflow.
+//!
+//! Oracles (all on the raw storage of results, `into_raw()`):
+//!  * `T::try_from(x)` / `T::try_from(&x)` / `T::from(x)` / `T::from(&x)` for a native unsigned
+//!    `x` of width `w`: `Ok` with `len == min(w, capacity)`, storage `== x` iff
+//!    `sig(x) <= capacity`, otherwise `Err(NotEnoughCapacity)` (never for `Bvd`/`Bv`).
+//!  * `T::try_from(&[x0, x1, ..])` / `T::from(..)`: length `count * w`, storage
+//!    `x0 | x1 << w | ..`, `Err(NotEnoughCapacity)` iff `count * w > capacity`.
+//!  * `uN::try_from(&v)` / `uN::try_from(v)`: `Ok(val(v))` iff `sig(val(v)) <= w`, otherwise
+//!    `Err(NotEnoughCapacity)`; a panic anywhere (e.g. on the empty vector) fails the harness.
+//!  * `Bit <-> bool / uN`.
+use crate::big::Big;
+use crate::nd;
+use crate::scopes::*;
+use bva::{Bit, BitVector, Bv, Bvd, Bvf, ConvertionError};
+
+// =============================================================================================
+// integer -> vector
+// =============================================================================================
+
+/// One native type into one fixed type, by value and by reference.
+macro_rules! int_to_bvf {
+    ($T:ty, $I:ident) => {{
+        let x: $I = nd::$I();
+        let w = <$I>::BITS as usize;
+        let cap = <$T>::capacity();
+        let sig = Big::lo(x as u128).sig();
+        w!(sig == if w < cap { w } else { cap }, "largest value that still fits (all of the integer or exactly the capacity)");
+        w!(if w > cap { sig == cap + 1 } else { x == 0 }, "one significant bit more than the capacity (wide integers), zero otherwise");
+        let by_val = <$T>::try_from(x);
+        let by_ref = <$T>::try_from(&x);
+        assert!(by_val.is_ok() == (sig <= cap), "C11: try_from(int) fails iff the value has more significant bits than the capacity");
+        assert!(by_ref.is_ok() == (sig <= cap), "C11: try_from(&int) fails iff the value has more significant bits than the capacity");
+        match by_val {
+            Ok(v) => {
+                let r = v.into_raw();
+                assert!(r.len == if w < cap { w } else { cap }, "C11: try_from(int) length differs from min(width, capacity)");
+                assert!(r.v == Big::lo(x as u128), "C11: try_from(int) storage differs from the integer");
+            }
+            Err(e) => assert!(e == ConvertionError::NotEnoughCapacity, "C11: try_from(int) wrong error"),
+        }
+        match by_ref {
+            Ok(v) => {
+                let r = v.into_raw();
+                assert!(r.len == if w < cap { w } else { cap }, "C11: try_from(&int) length differs from min(width, capacity)");
+                assert!(r.v == Big::lo(x as u128), "C11: try_from(&int) storage differs from the integer");
+            }
+            Err(e) => assert!(e == ConvertionError::NotEnoughCapacity, "C11: try_from(&int) wrong error"),
+        }
+    }};
+}
+
+/// All six native types into one fixed type.
+macro_rules! h_ints_to_bvf {
+    ($name:ident, $unw:literal, $T:ty) => {
+        harness!($name, $unw, {
+            int_to_bvf!($T, u8);
+            int_to_bvf!($T, u16);
+            int_to_bvf!($T, u32);
+            int_to_bvf!($T, u64);
+            int_to_bvf!($T, u128);
+            int_to_bvf!($T, usize);
+        });
+    };
+}
+
+h_ints_to_bvf!(c11_q_ints_to_f8x1, 3, Bvf<u8, 1>);
+h_ints_to_bvf!(c11_q_ints_to_f8x2, 4, Bvf<u8, 2>);
+h_ints_to_bvf!(c11_q_ints_to_f8x3, 5, Bvf<u8, 3>);
+h_ints_to_bvf!(c11_q_ints_to_f16x1, 3, Bvf<u16, 1>);
+h_ints_to_bvf!(c11_q_ints_to_f16x2, 4, Bvf<u16, 2>);
+h_ints_to_bvf!(c11_q_ints_to_f32x2, 4, Bvf<u32, 2>);
+h_ints_to_bvf!(c11_q_ints_to_f64x2, 4, Bvf<u64, 2>);
+h_ints_to_bvf!(c11_q_ints_to_f64x3, 5, Bvf<u64, 3>);
+h_ints_to_bvf!(c11_t_ints_to_f8x4, 6, Bvf<u8, 4>);
+h_ints_to_bvf!(c11_t_ints_to_f32x1, 3, Bvf<u32, 1>);
+h_ints_to_bvf!(c11_t_ints_to_f64x1, 3, Bvf<u64, 1>);
+h_ints_to_bvf!(c11_t_ints_to_fuszx2, 4, Bvf<usize, 2>);
+h_ints_to_bvf!(c11_t_ints_to_f128x1, 3, Bvf<u128, 1>);
+h_ints_to_bvf!(c11_t_ints_to_f128x2, 4, Bvf<u128, 2>);
+
+/// One native type into `Bvd` (one allocation per harness: one form).
+macro_rules! h_int_to_bvd {
+    ($name:ident, $unw:literal, $I:ident, byval) => {
+        h_int_to_bvd!(@body $name, $unw, $I, |x: $I| Bvd::from(x));
+    };
+    ($name:ident, $unw:literal, $I:ident, byref) => {
+        h_int_to_bvd!(@body $name, $unw, $I, |x: $I| Bvd::from(&x));
+    };
+    (@body $name:ident, $unw:literal, $I:ident, $conv:expr) => {
+        harness!($name, $unw, {
+            let x: $I = nd::$I();
+            let w = <$I>::BITS as usize;
+            w!(x == 0, "zero");
+            w!(x == <$I>::MAX, "all ones");
+            w!(x != 0 && (x as u128) < 1u128 << (w - 1) && x & 1 == 0, "top and bottom bit clear, non-zero");
+            let r = ($conv)(x).into_raw();
+            assert!(r.len == w, "C11: Bvd::from(int) length differs from the integer width");
+            assert!(r.v == Big::lo(x as u128), "C11: Bvd::from(int) storage differs from the integer");
+            assert!(r.len <= r.cap, "C11: len > capacity");
+        });
+    };
+}
+
+h_int_to_bvd!(c11_q_u8_to_bvd, 10, u8, byval);
+h_int_to_bvd!(c11_q_u16_to_bvd, 6, u16, byval);
+h_int_to_bvd!(c11_q_u32_to_bvd, 4, u32, byval);
+h_int_to_bvd!(c11_q_u64_to_bvd, 4, u64, byval);
+h_int_to_bvd!(c11_q_u128_to_bvd, 4, u128, byval);
+h_int_to_bvd!(c11_q_usize_to_bvd, 4, usize, byval);
+h_int_to_bvd!(c11_q_u8ref_to_bvd, 10, u8, byref);
+h_int_to_bvd!(c11_q_u64ref_to_bvd, 4, u64, byref);
+h_int_to_bvd!(c11_q_u128ref_to_bvd, 4, u128, byref);
+h_int_to_bvd!(c11_t_u16ref_to_bvd, 6, u16, byref);
+h_int_to_bvd!(c11_t_u32ref_to_bvd, 4, u32, byref);
+h_int_to_bvd!(c11_t_usizeref_to_bvd, 4, usize, byref);
+
+/// One native type into `Bv`, both forms (every native width fits the inline storage).
+macro_rules! int_to_bv {
+    ($I:ident) => {{
+        let x: $I = nd::$I();
+        let w = <$I>::BITS as usize;
+        w!(x == <$I>::MAX, "all ones");
+        w!(x == 0, "zero");
+        let r = Bv::from(x).into_raw();
+        assert!(r.len == w && r.v == Big::lo(x as u128), "C11: Bv::from(int) is not (width, value)");
+        assert!(r.len <= r.cap, "C11: len > capacity");
+        let r = Bv::from(&x).into_raw();
+        assert!(r.len == w && r.v == Big::lo(x as u128), "C11: Bv::from(&int) is not (width, value)");
+        assert!(r.len <= r.cap, "C11: len > capacity");
+    }};
+}
+
+harness!(c11_q_ints_to_bv_narrow, 4, {
+    int_to_bv!(u8);
+    int_to_bv!(u16);
+    int_to_bv!(u32);
+});
+harness!(c11_q_ints_to_bv_wide, 4, {
+    int_to_bv!(u64);
+    int_to_bv!(u128);
+    int_to_bv!(usize);
+});
+
+// =============================================================================================
+// slice of integers -> vector
+// =============================================================================================
+
+/// Model of a slice `[x0, x1, x2, x3][..count]` of elements of width `w`.
+#[inline(always)]
+fn concat(count: usize, w: usize, x0: u128, x1: u128, x2: u128, x3: u128) -> Big {
+    let mut v = Big::ZERO;
+    if count > 0 {
+        v = v.or(Big::lo(x0));
+    }
+    if count > 1 {
+        v = v.or(Big::lo(x1).shl(w));
+    }
+    if count > 2 {
+        v = v.or(Big::lo(x2).shl(2 * w));
+    }
+    if count > 3 {
+        v = v.or(Big::lo(x3).shl(3 * w));
+    }
+    v
+}
+
+/// One slice length into a fixed type.
+macro_rules! slice_to_bvf {
+    ($T:ty, $J:ident, $arr:ident, $count:literal) => {{
+        let w = <$J>::BITS as usize;
+        let cap = <$T>::capacity();
+        let s: &[$J] = &$arr[..$count];
+        let want = concat($count, w, $arr[0] as u128, $arr[1] as u128, $arr[2] as u128, $arr[3] as u128);
+        match <$T>::try_from(s) {
+            Ok(v) => {
+                let r = v.into_raw();
+                assert!($count * w <= cap, "C11: try_from(slice) succeeded although count*width exceeds the capacity");
+                assert!(r.len == $count * w, "C11: try_from(slice) length differs from count*width");
+                assert!(r.v == want, "C11: try_from(slice) storage differs from the concatenation (element 0 least significant)");
+            }
+            Err(e) => {
+                assert!($count * w > cap, "C11: try_from(slice) failed although count*width fits the capacity");
+                assert!(e == ConvertionError::NotEnoughCapacity, "C11: try_from(slice) wrong error");
+            }
+        }
+    }};
+}
+
+/// Slices of 0..=4 symbolic elements of type `J` into the fixed type `T`.
+macro_rules! h_slice_to_bvf {
+    ($name:ident, $unw:literal, $T:ty, $J:ident) => {
+        harness!($name, $unw, {
+            let arr: [$J; 4] = [nd::$J(), nd::$J(), nd::$J(), nd::$J()];
+            w!(arr[0] == <$J>::MAX && arr[1] == 0, "element 0 all ones, element 1 zero");
+            w!(arr[0] == 0 && arr[1] != 0, "element 0 zero, element 1 non-zero");
+            w!(arr[0] != arr[1] && arr[1] != arr[2] && arr[2] != arr[3], "distinct neighbours");
+            slice_to_bvf!($T, $J, arr, 0);
+            slice_to_bvf!($T, $J, arr, 1);
+            slice_to_bvf!($T, $J, arr, 2);
+            slice_to_bvf!($T, $J, arr, 3);
+            slice_to_bvf!($T, $J, arr, 4);
+        });
+    };
+}
+
+// element narrower than / equal to / wider than the storage word
+h_slice_to_bvf!(c11_q_slice_u8_to_f8x2, 6, Bvf<u8, 2>, u8);
+h_slice_to_bvf!(c11_q_slice_u8_to_f8x3, 6, Bvf<u8, 3>, u8);
+h_slice_to_bvf!(c11_q_slice_u16_to_f8x3, 6, Bvf<u8, 3>, u16);
+h_slice_to_bvf!(c11_q_slice_u8_to_f16x2, 6, Bvf<u16, 2>, u8);
+h_slice_to_bvf!(c11_q_slice_u16_to_f16x2, 6, Bvf<u16, 2>, u16);
+h_slice_to_bvf!(c11_q_slice_u32_to_f16x2, 6, Bvf<u16, 2>, u32);
+h_slice_to_bvf!(c11_q_slice_u32_to_f64x2, 6, Bvf<u64, 2>, u32);
+h_slice_to_bvf!(c11_q_slice_u64_to_f64x2, 6, Bvf<u64, 2>, u64);
+h_slice_to_bvf!(c11_q_slice_u128_to_f64x2, 6, Bvf<u64, 2>, u128);
+h_slice_to_bvf!(c11_t_slice_u8_to_f64x2, 6, Bvf<u64, 2>, u8);
+h_slice_to_bvf!(c11_t_slice_u64_to_f8x3, 10, Bvf<u8, 3>, u64);
+h_slice_to_bvf!(c11_t_slice_u64_to_f64x3, 6, Bvf<u64, 3>, u64);
+h_slice_to_bvf!(c11_t_slice_usize_to_f64x2, 6, Bvf<u64, 2>, usize);
+h_slice_to_bvf!(c11_t_slice_u16_to_f32x2, 6, Bvf<u32, 2>, u16);
+h_slice_to_bvf!(c11_t_slice_u64_to_f128x2, 6, Bvf<u128, 2>, u64);
+
+/// One concrete slice length into `Bvd` or `Bv` (the conversion allocates by length).
+macro_rules! h_slice_to_heap {
+    ($name:ident, $unw:literal, $T:ty, $J:ident, $count:literal) => {
+        harness!($name, $unw, {
+            let arr: [$J; 4] = [nd::$J(), nd::$J(), nd::$J(), nd::$J()];
+            let w = <$J>::BITS as usize;
+            w!($count == 0 || arr[0] == <$J>::MAX, "empty slice, or element 0 all ones");
+            w!($count < 2 || (arr[0] == 0 && arr[1] != 0), "fewer than two elements, or element 0 zero and element 1 non-zero");
+            w!($count < 3 || (arr[2] != 0 && arr[1] == 0), "fewer than three elements, or element 2 non-zero above a zero element 1");
+            let s: &[$J] = &arr[..$count];
+            let want = concat($count, w, arr[0] as u128, arr[1] as u128, arr[2] as u128, arr[3] as u128);
+            let r = <$T>::from(s).into_raw();
+            assert!(r.len == $count * w, "C11: from(slice) length differs from count*width");
+            assert!(r.v == want, "C11: from(slice) storage differs from the concatenation (element 0 least significant)");
+            assert!(r.len <= r.cap, "C11: len > capacity");
+        });
+    };
+}
+
+h_slice_to_heap!(c11_q_slice0_u8_to_bvd, 4, Bvd, u8, 0);
+h_slice_to_heap!(c11_q_slice1_u8_to_bvd, 4, Bvd, u8, 1);
+h_slice_to_heap!(c11_q_slice3_u8_to_bvd, 5, Bvd, u8, 3);
+h_slice_to_heap!(c11_q_slice2_u16_to_bvd, 4, Bvd, u16, 2);
+h_slice_to_heap!(c11_q_slice3_u32_to_bvd, 5, Bvd, u32, 3);
+h_slice_to_heap!(c11_q_slice1_u64_to_bvd, 4, Bvd, u64, 1);
+h_slice_to_heap!(c11_q_slice3_u64_to_bvd, 5, Bvd, u64, 3);
+h_slice_to_heap!(c11_q_slice2_u128_to_bvd, 4, Bvd, u128, 2);
+h_slice_to_heap!(c11_t_slice4_u8_to_bvd, 6, Bvd, u8, 4);
+h_slice_to_heap!(c11_t_slice4_u64_to_bvd, 6, Bvd, u64, 4);
+h_slice_to_heap!(c11_t_slice1_u128_to_bvd, 4, Bvd, u128, 1);
+h_slice_to_heap!(c11_t_slice2_usize_to_bvd, 4, Bvd, usize, 2);
+h_slice_to_heap!(c11_t_slice0_u64_to_bvd, 4, Bvd, u64, 0);
+// Bv: inline up to 128 bits, heap above
+h_slice_to_heap!(c11_q_slice0_u8_to_bv, 4, Bv, u8, 0);
+h_slice_to_heap!(c11_q_slice3_u8_to_bv, 5, Bv, u8, 3);
+h_slice_to_heap!(c11_q_slice2_u64_to_bv, 4, Bv, u64, 2);
+h_slice_to_heap!(c11_q_slice3_u64_to_bv, 5, Bv, u64, 3);
+h_slice_to_heap!(c11_q_slice1_u128_to_bv, 4, Bv, u128, 1);
+h_slice_to_heap!(c11_q_slice2_u128_to_bv, 4, Bv, u128, 2);
+h_slice_to_heap!(c11_t_slice4_u32_to_bv, 6, Bv, u32, 4);
+h_slice_to_heap!(c11_t_slice3_u16_to_bv, 5, Bv, u16, 3);
+
+// =============================================================================================
+// vector -> integer
+// =============================================================================================
+
+/// `uN::try_from(&v)` against the model value.
+macro_rules! vec_to_int_ref {
+    ($v:ident, $rv:ident, $I:ident) => {{
+        let w = <$I>::BITS as usize;
+        let sig = $rv.v.sig();
+        w!(sig == if w < $rv.cap { w } else { $rv.cap }, "value as wide as the integer (or as the whole vector if that is narrower)");
+        w!(if $rv.cap > w { sig == w + 1 } else { $rv.len == $rv.cap }, "one significant bit too many (or full-length vector if it cannot be wider)");
+        match <$I>::try_from(&$v) {
+            Ok(x) => {
+                assert!(sig <= w, "C11: try_from(&vector) succeeded although the value does not fit the integer");
+                assert!(Big::lo(x as u128) == $rv.v, "C11: try_from(&vector) returned a different value");
+            }
+            Err(e) => {
+                assert!(sig > w, "C11: try_from(&vector) failed although the value fits the integer");
+                assert!(e == ConvertionError::NotEnoughCapacity, "C11: try_from(&vector) wrong error");
+            }
+        }
+    }};
+}
+
+/// `uN::try_from(v)` (consumes `v`).
+macro_rules! vec_to_int_val {
+    ($v:expr, $rv:ident, $I:ident) => {{
+        let w = <$I>::BITS as usize;
+        let sig = $rv.v.sig();
+        match <$I>::try_from($v) {
+            Ok(x) => {
+                assert!(sig <= w, "C11: try_from(vector) succeeded although the value does not fit the integer");
+                assert!(Big::lo(x as u128) == $rv.v, "C11: try_from(vector) returned a different value");
+            }
+            Err(e) => {
+                assert!(sig > w, "C11: try_from(vector) failed although the value fits the integer");
+                assert!(e == ConvertionError::NotEnoughCapacity, "C11: try_from(vector) wrong error");
+            }
+        }
+    }};
+}
+
+/// A `Copy` source (`Bvf`): three integer types, by reference and by value.
+macro_rules! h_bvf_to_ints {
+    ($name:ident, $unw:literal, $src:expr, $I1:ident, $I2:ident, $I3:ident) => {
+        harness!($name, $unw, {
+            let (v, rv) = $src;
+            w!(rv.len == 0, "empty vector");
+            w!(rv.len == rv.cap && rv.v.is_zero(), "full-length zero vector");
+            vec_to_int_ref!(v, rv, $I1);
+            vec_to_int_ref!(v, rv, $I2);
+            vec_to_int_ref!(v, rv, $I3);
+            vec_to_int_val!(v, rv, $I1);
+            vec_to_int_val!(v, rv, $I2);
+            vec_to_int_val!(v, rv, $I3);
+            assert!(v.into_raw() == rv, "C11: source modified");
+        });
+    };
+}
+
+h_bvf_to_ints!(c11_q_f8x1_to_narrow, 6, f8x1(anylen(8)), u8, u16, u32);
+h_bvf_to_ints!(c11_q_f8x2_to_narrow, 6, f8x2(anylen(16)), u8, u16, u32);
+h_bvf_to_ints!(c11_q_f8x2_to_wide, 18, f8x2(anylen(16)), u64, u128, usize);
+h_bvf_to_ints!(c11_q_f8x3_to_narrow, 6, f8x3(anylen(24)), u8, u16, u32);
+h_bvf_to_ints!(c11_q_f16x2_to_narrow, 4, f16x2(anylen(32)), u8, u16, u32);
+h_bvf_to_ints!(c11_q_f16x2_to_wide, 10, f16x2(anylen(32)), u64, u128, usize);
+h_bvf_to_ints!(c11_q_f64x2_to_narrow, 4, f64x2(anylen(128)), u8, u16, u32);
+h_bvf_to_ints!(c11_q_f64x2_to_wide, 4, f64x2(anylen(128)), u64, u128, usize);
+h_bvf_to_ints!(c11_t_f8x3_to_wide, 18, f8x3(anylen(24)), u64, u128, usize);
+h_bvf_to_ints!(c11_t_f32x2_to_narrow, 4, f32x2(anylen(64)), u8, u16, u32);
+h_bvf_to_ints!(c11_t_f32x2_to_wide, 6, f32x2(anylen(64)), u64, u128, usize);
+h_bvf_to_ints!(c11_t_f64x3_to_narrow, 5, f64x3(anylen(192)), u8, u16, u32);
+h_bvf_to_ints!(c11_t_f64x3_to_wide, 5, f64x3(anylen(192)), u64, u128, usize);
+h_bvf_to_ints!(c11_t_f128x2_to_narrow, 4, f128x2(anylen(256)), u8, u16, u32);
+h_bvf_to_ints!(c11_t_f128x2_to_wide, 4, f128x2(anylen(256)), u64, u128, usize);
+h_bvf_to_ints!(c11_t_fuszx2_to_wide, 4, fuszx2(anylen(128)), u64, u128, usize);
+
+/// A heap source: all six integer types by reference (no allocation involved).
+macro_rules! h_heap_to_ints_ref {
+    ($name:ident, $unw:literal, $src:expr) => {
+        harness!($name, $unw, {
+            let (v, rv) = $src;
+            w!(rv.len == 0, "empty vector");
+            w!(rv.len == rv.cap && rv.v.is_zero(), "full-length zero vector");
+            w!((rv.cap < 128 || rv.cap >= rv.len + 64) && rv.len + 8 <= rv.cap && !rv.v.is_zero(), "non-zero value below unused storage (a whole spare word if there are two or more words)");
+            vec_to_int_ref!(v, rv, u8);
+            vec_to_int_ref!(v, rv, u16);
+            vec_to_int_ref!(v, rv, u32);
+            vec_to_int_ref!(v, rv, u64);
+            vec_to_int_ref!(v, rv, u128);
+            vec_to_int_ref!(v, rv, usize);
+            assert!(v.into_raw() == rv, "C11: source modified");
+        });
+    };
+}
+
+h_heap_to_ints_ref!(c11_q_bvd1_to_ints, 4, bvd1(anylen(64)));
+h_heap_to_ints_ref!(c11_q_bvd2_to_ints, 4, bvd2(anylen(128)));
+h_heap_to_ints_ref!(c11_q_bvd3_to_ints, 5, bvd3(anylen(192)));
+h_heap_to_ints_ref!(c11_q_bvdyn2_to_ints, 4, bvdyn2(anylen(128)));
+h_heap_to_ints_ref!(c11_q_bvdyn3_to_ints, 5, bvdyn3(anylen(192)));
+h_heap_to_ints_ref!(c11_t_bvd4_to_ints, 6, bvd4(anylen(256)));
+h_heap_to_ints_ref!(c11_t_bvdyn1_to_ints, 4, bvdyn1(anylen(64)));
+
+// `Bvd` with no storage at all (`len == 0`, zero words).
+harness!(c11_q_bvd0_to_ints, 3, {
+    let (v, rv) = bvd0(0);
+    w!(rv.len == 0 && rv.cap == 0, "empty vector without storage");
+    assert!(u8::try_from(&v) == Ok(0), "C11: u8::try_from(&empty) is not Ok(0)");
+    assert!(u16::try_from(&v) == Ok(0), "C11: u16::try_from(&empty) is not Ok(0)");
+    assert!(u32::try_from(&v) == Ok(0), "C11: u32::try_from(&empty) is not Ok(0)");
+    assert!(u64::try_from(&v) == Ok(0), "C11: u64::try_from(&empty) is not Ok(0)");
+    assert!(u128::try_from(&v) == Ok(0), "C11: u128::try_from(&empty) is not Ok(0)");
+    assert!(usize::try_from(&v) == Ok(0), "C11: usize::try_from(&empty) is not Ok(0)");
+});
+
+/// A heap source consumed by value: one integer type per harness.
+macro_rules! h_heap_to_int_val {
+    ($name:ident, $unw:literal, $src:expr, $I:ident) => {
+        harness!($name, $unw, {
+            let (v, rv) = $src;
+            let w = <$I>::BITS as usize;
+            w!(rv.len == 0, "empty vector");
+            w!(rv.v.sig() == w, "value needs exactly the integer's width");
+            w!(rv.v.sig() == w + 1 || rv.len == rv.cap, "one significant bit too many, or full-length vector");
+            vec_to_int_val!(v, rv, $I);
+        });
+    };
+}
+
+h_heap_to_int_val!(c11_q_bvd2_into_u8, 4, bvd2(anylen(128)), u8);
+h_heap_to_int_val!(c11_q_bvd2_into_u16, 4, bvd2(anylen(128)), u16);
+h_heap_to_int_val!(c11_q_bvd2_into_u32, 4, bvd2(anylen(128)), u32);
+h_heap_to_int_val!(c11_q_bvd2_into_u64, 4, bvd2(anylen(128)), u64);
+h_heap_to_int_val!(c11_q_bvd3_into_u128, 5, bvd3(anylen(192)), u128);
+h_heap_to_int_val!(c11_q_bvd2_into_usize, 4, bvd2(anylen(128)), usize);
+h_heap_to_int_val!(c11_q_bvdyn2_into_u64, 4, bvdyn2(anylen(128)), u64);
+h_heap_to_int_val!(c11_q_bvdyn3_into_u128, 5, bvdyn3(anylen(192)), u128);
+h_heap_to_int_val!(c11_t_bvdyn2_into_u8, 4, bvdyn2(anylen(128)), u8);
+h_heap_to_int_val!(c11_t_bvd1_into_u32, 4, bvd1(anylen(64)), u32);
+
+// `Bv` in inline mode: by reference (all six) and by value (one type per harness, `Bv` is
+// not `Copy`).
+h_heap_to_ints_ref!(c11_q_bvfix_to_ints, 4, bvfix(anylen(128)));
+h_heap_to_int_val!(c11_q_bvfix_into_u8, 4, bvfix(anylen(128)), u8);
+h_heap_to_int_val!(c11_q_bvfix_into_u64, 4, bvfix(anylen(128)), u64);
+h_heap_to_int_val!(c11_q_bvfix_into_u128, 4, bvfix(anylen(128)), u128);
+h_heap_to_int_val!(c11_t_bvfix_into_u16, 4, bvfix(anylen(128)), u16);
+h_heap_to_int_val!(c11_t_bvfix_into_u32, 4, bvfix(anylen(128)), u32);
+h_heap_to_int_val!(c11_t_bvfix_into_usize, 4, bvfix(anylen(128)), usize);
+
+// =============================================================================================
+// Bit <-> bool / integers
+// =============================================================================================
+
+macro_rules! bit_int {
+    ($I:ident) => {{
+        let x: $I = nd::$I();
+        w!(x > 1, "integer other than 0 and 1");
+        w!(x == 0, "zero");
+        let b = Bit::from(x);
+        assert!((b == Bit::Zero) == (x == 0) && (b == Bit::One) == (x != 0), "C11: Bit::from(int) is not Zero for 0 and One otherwise");
+        assert!(<$I>::from(Bit::Zero) == 0 && <$I>::from(Bit::One) == 1, "C11: int::from(Bit) is not 0 / 1");
+        let c = nd::bit();
+        assert!(Bit::from(<$I>::from(c)) == c, "C11: Bit -> int -> Bit does not round-trip");
+    }};
+}
+
+harness!(c11_q_bit_conversions, 2, {
+    bit_int!(u8);
+    bit_int!(u16);
+    bit_int!(u32);
+    bit_int!(u64);
+    bit_int!(u128);
+    bit_int!(usize);
+    let t = nd::bool();
+    w!(t, "true");
+    w!(!t, "false");
+    assert!((Bit::from(t) == Bit::One) == t && (Bit::from(t) == Bit::Zero) == !t, "C11: Bit::from(bool) is not One for true and Zero for false");
+    assert!(bool::from(Bit::One) && !bool::from(Bit::Zero), "C11: bool::from(Bit) is not true / false");
+    assert!(bool::from(Bit::from(t)) == t, "C11: bool -> Bit -> bool does not round-trip");
+    let c = nd::bit();
+    assert!(Bit::from(bool::from(c)) == c, "C11: Bit -> bool -> Bit does not round-trip");
+});
